@@ -24,7 +24,7 @@ RULE = ('poses over the whole group (1..5 pairwise distinct values), point coord
 ASSUMPTIONS = ['R and t of the reference are read from the stored matrices (.data) of the pose; for quaternion classes from '
                'the reference quaternion->matrix map', 'a single transformed vector may come back with shape (d,) or (d,1)',
                'multi-valued pose times a d x N array is not covered by the statement and is not driven']
-MIN_EVALS = {'action': {'quick': 6000, 'thorough': 100000}, 'laws': {'quick': 1500, 'thorough': 30000},
+MIN_EVALS = {'action': {'quick': 4000, 'thorough': 80000}, 'laws': {'quick': 900, 'thorough': 15000},
              'routes': {'quick': 1000, 'thorough': 20000}, 'homog.contract': {'quick': 3000, 'thorough': 50000}}
 _ctx = None
 
